@@ -12,7 +12,7 @@ import numpy as np
 
 from sim import core
 from sim.core import HarnessError
-from sim.kseam import compiled_call, kernel
+from sim.kseam import compiled_call, kernel, same_results
 from sim.mapmodel import UNIT_CM, build_mesh, gen_direction, gen_mesh, gen_view
 from sim.parsim import KernelError, Sim, draw_schedule_config
 from checks import c03
@@ -80,7 +80,7 @@ def generate(rng, tier):
         view["resolution"]["z"] = zres
     return {"mesh": m, "view": view, "direction": gen_direction(rng, m["ndim"]), "layers": c03.gen_layers(rng, m["ndim"]), "call_mode": None,
             "dz": dz, "dz_unit": rng.choice([m["unit"], m["unit"], "cm", "m"]), "operation": rng.choice(OPS + ["sum", "mean"]),
-            "sched": draw_schedule_config(rng, maxT=8)}
+            "sched": draw_schedule_config(rng, maxT=8), "knob": rng.choice([None, None, None, 1024, 16384])}
 
 
 def describe(case):
@@ -168,6 +168,12 @@ def execute(case, stats):
         V("basis", bad, {})
         return res
     info = judge_thick(case, p1, c1, cells, loc, vals, origin_s, nuv, V, stats, dg)
+    ks_ = kernel(MODNAME, KATTR)[2]
+    if case.get("knob") and ks_ is not None and ks_.knobs:
+        stats.inc("probe.run_with_shrunken_kernel_knobs")
+        if viol:
+            stats.inc("ambig.knob_variant_changes_sequential_result")
+            return execute(dict(case, knob=None), stats)
     if info is None:
         return res
     if not viol and c2 is not c1:
@@ -423,7 +429,7 @@ def finalize(tier, base_seed, stats, viols):
         mod, orig, ks = _k(MODNAME, KATTR)
         sim_out = ks.run(Sim(T=1), **args)
         real_out = compiled_call(MODNAME, KATTR, args, nthreads=1)
-        if not np.array_equal(np.asarray(sim_out), np.asarray(real_out), equal_nan=True):
+        if not same_results(sim_out, real_out):
             raise HarnessError(f"model divergence: simulated T=1 != compiled T=1 for anchor case {r}")
         checked += 1
     return {"fidelity_anchor": {"workloads_compiled_T1_equal_simulated_T1": checked, "attempted": nanchor}}
